@@ -85,3 +85,45 @@ Definition aligned_stop_prefix (r : rs) : Z :=
   if sub_nonempty (r_small r) then r_apbegin r else r_apend r.
 Definition aligned_parts_prefix (get_length : Z -> Z) (r : rs) (fuel : nat) : option (list sub) :=
   aligned_parts_from get_length (aligned_stop_prefix r) fuel (r_apbegin r).
+
+(* ---- the four statements, for a splitter given by (B, L, divide) ---- *)
+(* parts_tile: with enough fuel (number of touched blocks) all_parts() finishes,
+   is non-empty and tiles [offset, offset+length) block by block *)
+Definition parts_tile_stmt (B L : Z -> Z) (divide : Z -> divr) (offset length : Z) : Prop :=
+  let r := init divide L offset length in
+  forall fuel, (Z.to_nat (r_aend r - r_abegin r) <= fuel)%nat ->
+  exists l, all_parts L r fuel = Some l /\ l <> [] /\
+            tiles B L offset (offset + length) (r_abegin r) l.
+
+(* classification_consistent: aligned_parts() = the whole blocks apbegin..apend-1;
+   small_note is the only part if it exists, else all_parts() is
+   preface? ++ aligned parts ++ postface? *)
+Definition classification_stmt (L : Z -> Z) (divide : Z -> divr) (offset length : Z) : Prop :=
+  let r := init divide L offset length in
+  forall fuel, (Z.to_nat (r_aend r - r_abegin r) <= fuel)%nat ->
+  let al := whole_blocks L (r_apbegin r) (Z.to_nat (r_apend r - r_apbegin r)) in
+  aligned_parts L r fuel = Some al /\ Forall (whole_block L) al /\
+  (if sub_nonempty (r_small r)
+   then all_parts L r fuel = Some [r_small r] /\ al = []
+   else all_parts L r fuel = Some (opt_part (r_preface r) ++ al ++ opt_part (r_postface r))).
+
+(* aligned_enclose: [B abegin, B aend) encloses the range with less than one
+   block of slack on each side *)
+Definition enclose_stmt (B L : Z -> Z) (divide : Z -> divr) (offset length : Z) : Prop :=
+  let r := init divide L offset length in
+  B (r_abegin r) <= offset < B (r_abegin r) + L (r_abegin r) /\
+  offset + length <= B (r_aend r) /\
+  B (r_aend r) - L (r_apend r) < offset + length /\
+  (0 < length -> B (r_aend r) - L (r_aend r - 1) < offset + length).
+
+(* empty_range: no non-empty part; aligned_parts() is empty (for ANY fuel:
+   this is what F19 violated); no classified member exists *)
+Definition empty_stmt (L : Z -> Z) (divide : Z -> divr) (offset : Z) : Prop :=
+  let r := init divide L offset 0 in
+  (forall fuel, (Z.to_nat (r_aend r - r_abegin r) <= fuel)%nat ->
+     all_parts L r fuel =
+       Some (if d_rem (divide offset) =? 0 then []
+             else [mkSub (r_abegin r) (d_rem (divide offset)) 0])) /\
+  (forall fuel, aligned_parts L r fuel = Some []) /\
+  sub_nonempty (r_small r) = false /\ sub_nonempty (r_preface r) = false /\
+  sub_nonempty (r_postface r) = false.
